@@ -18,10 +18,12 @@ open Regress Regress.IR
 
 /-! ## Pre-scan: `parse_capture_groups` -/
 
-/-- `AlternativePath::conflicts_with`. -/
-def conflictsWith (a b : List (Nat × Nat)) : Bool :=
-  let n := min a.length b.length
-  a.take n == b.take n
+/-- `AlternativePath::conflicts_with`: the `for (a, b) in zip(..)` loop; a segment is
+`(group, alternative_index)`.  At the first differing pair the paths conflict unless they are
+different alternatives of the SAME group; a prefix conflicts. -/
+def conflictsWith : List (Nat × Nat) → List (Nat × Nat) → Bool
+  | a :: as, b :: bs => if a != b then a.1 != b.1 else conflictsWith as bs
+  | _, _ => true
 
 /-- The two nested `for` loops of `check_duplicate_conflicts` for one name. -/
 def anyConflict : List (List (Nat × Nat)) → Bool
@@ -39,7 +41,8 @@ def mapGet {β} (m : List (List Nat × β)) (k : List Nat) : Option β :=
   | [] => none
   | (k', v) :: rest => if k' == k then some v else mapGet rest k
 
-/-- `alt_indices: HashMap<usize, usize>`. -/
+/-- `alt_indices: HashMap<usize, usize>` and `group_ids: HashMap<usize, usize>` (both keyed by
+the nesting depth). -/
 def altGet (m : List (Nat × Nat)) (d : Nat) : Option Nat :=
   match m with
   | [] => none
@@ -80,6 +83,8 @@ def skipBracketV : List Nat → Nat → List Nat
 structure Scan where
   parenDepth : Nat := 0
   altIdx : List (Nat × Nat) := [(0, 0)]
+  groupIds : List (Nat × Nat) := [(0, 0)]
+  nextGroupId : Nat := 1
   locs : List (List Nat × List (List (Nat × Nat))) := []
   named : List (List Nat × List Nat) := []
   gmax : Nat := 0
@@ -110,7 +115,7 @@ def scanLoop (fl : Flags) : Nat → List Nat → Scan → Res Scan
             match groupName with
             | some name =>
               let segments := (List.range (sc.parenDepth + 1)).map fun d =>
-                (d, (altGet sc.altIdx d).getD 0)
+                ((altGet sc.groupIds d).getD 0, (altGet sc.altIdx d).getD 0)
               { sc with locs := mapPush sc.locs name segments, named := mapPush sc.named name sc.gmax }
             | none => sc
           let sc :=
@@ -119,11 +124,14 @@ def scanLoop (fl : Flags) : Nat → List Nat → Scan → Res Scan
                                 else sc.gmax + 1 }
             else sc
           let sc := { sc with parenDepth := sc.parenDepth + 1,
-                              altIdx := altInsert sc.altIdx (sc.parenDepth + 1) 0 }
+                              altIdx := altInsert sc.altIdx (sc.parenDepth + 1) 0,
+                              groupIds := altInsert sc.groupIds (sc.parenDepth + 1) sc.nextGroupId,
+                              nextGroupId := sc.nextGroupId + 1 }
           scanLoop fl fuel rest' sc
       else if c == 0x29 then
         if sc.parenDepth > 0 then
           scanLoop fl fuel rest { sc with altIdx := altRemove sc.altIdx sc.parenDepth,
+                                          groupIds := altRemove sc.groupIds sc.parenDepth,
                                           parenDepth := sc.parenDepth - 1 }
         else scanLoop fl fuel rest sc
       else if c == 0x7C then
@@ -443,10 +451,12 @@ def consumeAtom : Nat → PState → List Node → Nat → Res AtomOut
       | .error e => .error e
       | .ok (_, st) =>
         let (negateSet, st) := tryConsume 0x5E st
-        match classSetExpression fl (!st.named.isEmpty) (2 * st.input.length + 4) negateSet
+        match classSetExpression fl (!st.named.isEmpty) (2 * st.input.length + 4)
             { inp := st.input, depth := st.depth } with
         | .error e => .error e
         | .ok (cs, cst) =>
+          if negateSet && cs.mayContainStrings then synErr "Negated class may not contain strings"
+          else
           .ok ⟨result ++ [cs.node fl.icase negateSet], { st with input := cst.inp, depth := cst.depth },
             startOffset, true⟩
     else if c == 0x5B then
